@@ -113,4 +113,22 @@ def presented (inp name pw : Bytes) : Prop :=
     inp = encodeGreeting methods ++ ([0x01, UInt8.ofNat name.length] ++ name ++ [UInt8.ofNat pw.length] ++ pw ++ rest)
     ∧ methods.length < 256 ∧ 0 < name.length ∧ name.length < 256 ∧ pw.length < 256
 
+/-! ### a concrete bcrypt, for the equality-level reading of "matching"
+
+  bcrypt feeds Blowfish's key schedule with `password ++ [0]` repeated cyclically and uses 72 bytes
+  of it.  `hashOf pw` stands for "a hash generated from `pw`" (ideal otherwise). -/
+
+/-- The 72 key bytes `ExpandKey` uses. -/
+def cyc72 (k : Bytes) : Bytes :=
+  if k.isEmpty then [] else (List.range 72).map (fun i => k[i % k.length]!)
+
+def hashOf (pw : Bytes) : Bytes := 1 :: pw
+
+/-- `bcrypt.CompareHashAndPassword(h, p) == nil` for hashes made by `hashOf`; anything else (a junk
+    hash string) never verifies. -/
+def bcModel (h p : Bytes) : Bool :=
+  match h with
+  | 1 :: q => cyc72 (q ++ [0]) == cyc72 (p ++ [0])
+  | _ => false
+
 end MM.C21
